@@ -241,6 +241,12 @@ pub fn k_check_end<N: Nd, const F: usize>(nd: &mut N) {
 pub fn k_search_f9<N: Nd>(nd: &mut N) {
     k_search::<N, 9>(nd)
 }
+pub fn k_search_f11<N: Nd>(nd: &mut N) {
+    k_search::<N, 11>(nd)
+}
+pub fn k_check_end_f11<N: Nd>(nd: &mut N) {
+    k_check_end::<N, 11>(nd)
+}
 pub fn k_check_end_f9<N: Nd>(nd: &mut N) {
     k_check_end::<N, 9>(nd)
 }
@@ -252,6 +258,12 @@ harnesses! {
     /// @meta props=C02,C17,C06,C12:t tier=quick kind=K stage2=pub timeout=1500 mem=12 unwind=12 bounds="fastq::Reader::check_end for every incomplete group at the end of every file <= 9 bytes (blank tail, truncation, last record without terminator)"
     #[kani::stub(std::string::String::from_utf8_lossy, crate::src::stub_lossy_empty)]
     fqk_check_end_f9 => k_check_end_f9;
+    /// @meta props=C02:t,C05:t,C17:t,C06:t tier=thorough kind=K stage2=pub timeout=5000 mem=30 unwind=14 bounds="as fqk_search_f9 with files <= 11 bytes (a complete record plus the start of the next one)"
+    #[kani::stub(std::string::String::from_utf8_lossy, crate::src::stub_lossy_empty)]
+    fqk_search_f11 => k_search_f11;
+    /// @meta props=C02:t,C17:t,C12:t,C06:t tier=thorough kind=K stage2=pub timeout=5000 mem=30 unwind=14 bounds="as fqk_check_end_f9 with files <= 11 bytes"
+    #[kani::stub(std::string::String::from_utf8_lossy, crate::src::stub_lossy_empty)]
+    fqk_check_end_f11 => k_check_end_f11;
 }
 
 /// K: `search_incomplete(k)` resumes a search whose first k-1 lines were already found and
@@ -432,6 +444,12 @@ pub fn k_make_room_f8_c6<N: Nd>(nd: &mut N) {
 pub fn k_seek_f8_c4<N: Nd>(nd: &mut N) {
     k_seek::<N, 8, 4>(nd)
 }
+pub fn k_seek_f10_c6<N: Nd>(nd: &mut N) {
+    k_seek::<N, 10, 6>(nd)
+}
+pub fn k_search_incomplete_f11<N: Nd>(nd: &mut N) {
+    k_search_incomplete::<N, 11>(nd)
+}
 
 harnesses! {
     @reg registry2;
@@ -442,6 +460,11 @@ harnesses! {
     fqk_make_room_f8_c6 => k_make_room_f8_c6;
     /// @meta props=C05,C06,C04 tier=quick kind=K stage2=pub timeout=1500 mem=12 unwind=10 unwindset="seq_io::fill_buf:8" bounds="fastq::Reader::seek (source delivering symbolic chunks) from every state, every window (capacity 4, every file offset) of every file <= 8 bytes to every target byte 0..=n (in-buffer shortcut and real seek + refill)"
     fqk_seek_f8_c4 => k_seek_f8_c4;
+    /// @meta props=C05:t,C04:t,C06:t tier=thorough kind=K stage2=pub timeout=5000 mem=30 unwind=12 unwindset="seq_io::fill_buf:8" bounds="as fqk_seek_f8_c4 with capacity 6 and files <= 10 bytes"
+    fqk_seek_f10_c6 => k_seek_f10_c6;
+    /// @meta props=C02:t,C03:t,C17:t tier=thorough kind=K stage2=pub timeout=5000 mem=30 unwind=14 bounds="as fqk_search_incomplete_f9 with files <= 11 bytes"
+    #[kani::stub(std::string::String::from_utf8_lossy, crate::src::stub_lossy_empty)]
+    fqk_search_incomplete_f11 => k_search_incomplete_f11;
 }
 
 /// K: `resume_incomplete_search` from an unfinished group in a completely filled buffer (one or
